@@ -17,6 +17,16 @@ class Unevaluable(Exception):
     pass
 
 
+class Undefined:
+    """value of a ghost expression that has no value on this input (e.g. int(inf)); any use is Unevaluable"""
+
+    def _u(self, *a, **k):
+        raise Unevaluable("ghost value undefined on this input")
+    __eq__ = __ne__ = __lt__ = __le__ = __gt__ = __ge__ = __add__ = __radd__ = __sub__ = __rsub__ = _u
+    __mul__ = __rmul__ = __truediv__ = __floordiv__ = __mod__ = __neg__ = __bool__ = __int__ = __float__ = __index__ = _u
+    __hash__ = None
+
+
 def implies(a, b):
     return (not a) or bool(b)
 
@@ -185,6 +195,10 @@ def subclass_of(e, cls):
 
 def class_is(e, cls):
     return type(e) is cls
+
+
+def range_sum(name, first, count, step):
+    return sum(ufn(name, first + k * step) for k in range(max(0, int(count))))
 
 
 _UFN = {}
